@@ -23,8 +23,9 @@ differ between x and y (C03 says they do not exist).
 modes: 'sibling' (x itself, after objects that share its arrays - x * 1, x + 0, x.clone() - were mutated in place
 with operands carrying another mask), 'setitem', 'iadd', 'isub', 'imul', 'itruediv', 'iand', 'ior', 'ixor', and 'derived' (not in-place:
 x0 = x - 2.0 gets a derivative 'h', every cached view of x0 is asked for, y = x0 + 2.0 takes the
-number fast path that clones x0 with its cache; y then carries the extra derivative 'h'), and 'inplace_num' (the
-same with x0 += 2.0);
+number fast path that clones x0 with its cache; y then carries the extra derivative 'h'), 'inplace_num' (the
+same with x0 += 2.0) and 'divzero' (a fully masked float object reached as twin / 0 after the twin's cached views were
+asked for);
 ``modes_for(x)`` lists the ones that apply to x.  ``reach`` returns x itself when the mode cannot be applied."""
 import numpy as np
 
@@ -52,6 +53,8 @@ def modes_for(x):
         m.append('derived')
         if not x.item:
             m.append('inplace_num')
+    if x.is_float() and not x.derivs and np.all(x._mask_) and type(x).__name__ not in ('Matrix3', 'Quaternion'):
+        m.append('divzero')
     if x.derivs or type(x).__name__ == 'Matrix3':
         return m        # *= and /= OR the operand's mask into the derivatives' own masks; Matrix3 *= Scalar is unsupported
     if x.is_float():
@@ -78,6 +81,8 @@ def _unmasked_twin(Pm, x):
 
 
 def reach(Pm, x, mode, k=0):
+    if mode in ('iadd', 'isub', 'imul', 'itruediv', 'setitem') and k % 2 == 0 and 'divzero' in modes_for(x):
+        mode = 'divzero'        # a fully masked float object: also reach it as (unmasked twin, queried) / 0
     try:
         y = _reach(Pm, x, mode, k)
     except Exception:      # noqa  (the history cannot be built for this object: use the fresh one)
@@ -120,6 +125,14 @@ def _reach(Pm, x, mode, k):
                 if not sb2.readonly:
                     sb2[idx] = sb2[idx].remask(not bool(xm[idx]))
         return x
+    if mode == 'divzero':
+        # every element masked: the quotient of a fully visible twin (whose cached views were all asked for) by the
+        # Python number 0; the number path clones the twin WITH its cache (seeded change C14-G: stale antimask)
+        w = _unmasked_twin(Pm, x)
+        warm(w)
+        _ = w < w, w.as_mask_where_nonzero()
+        y = w / 0
+        return y
     if mode == 'derived':
         x0 = x - 2.0
         x0.insert_deriv('h', x0.wod.copy())
